@@ -17,8 +17,32 @@ checks = {
    text="seeded search over record streams, read fragmentations and pause timings around the flush interval, plus the exhaustive sweep of all 1-cut and 2-cut splits of each short base stream, against the real listener/framer on simulated TCP; emitted messages compared with an independent line-based reference framer.",
    note="trusted base: simulator and simnet (segment-preserving reads, deadline semantics of net.Conn); limits scaled down with the shipped relations; newline-terminated streams only"),
  "C17": dict(engine="world-D", cat="exploration", ref="DESIGN.md §5 C17",
-   text="seeded search over the interleavings of sink registration, use and close with SIGHUP reloads (accepted and rejected) at the real ReloadableOrchestrator: the property's small case (two connections, one reload) with the distinct-interleaving count reported, larger API cases, and the composed case with the real listener on simulated TCP where descriptor numbers are reused like in the kernel; recording downstream orchestrators give the oracle R1-R6.",
-   note="trusted base: simulator, simnet's lowest-free descriptor model, simsignal; the end-to-end part of C17 (real Reloader, config files, delivery across reload) is decided in world A when that world is claimed"),
+   text="seeded search over the interleavings of sink registration, use and close with SIGHUP reloads (accepted and rejected) at the real ReloadableOrchestrator: the property's small case (two connections, one reload) with the distinct-interleaving count reported, larger API cases, and the composed case with the real listener on simulated TCP where descriptor numbers are reused like in the kernel; recording downstream orchestrators give the oracle R1-R6; end to end, world A runs the real Reloader with valid / invalid / incompatible configuration files rewritten before each SIGHUP under traffic and upstream faults.",
+   note="trusted base: simulator, simnet's lowest-free descriptor model, simsignal, and for the end-to-end part the trusted base of C01"),
+ "C01": dict(engine="world-A", cat="exploration", ref="DESIGN.md §5 C01",
+   text="seeded search over record streams, upstream fault scripts per connection attempt, graceful restart histories and goroutine schedules of the whole agent on simulated network and disk; at-least-once judged on what the agent actually read vs what the fake upstream acknowledged or the queue directory holds after the final stop, every delivered event compared with a fresh-pipeline reference, bounded liveness after faults stop.",
+   note="trusted base: simulator, simnet/simfs models, fluentlib decoding on the fake server, the sequential reference pipeline; TLS/handshake off; sampling, not proof"),
+ "C05": dict(engine="world-A", cat="exploration", ref="DESIGN.md §5 C05",
+   text="same world with shared key sets, small batches/chunks and forced spill; order of first deliveries per (connection, key set) and per-connection chunk order / no skipped older undelivered chunk checked over the fake upstream's global receive history.",
+   note="trusted base as C01; queue limits are not reachable in this profile (the documented skip path legitimately defers chunks)"),
+ "C06": dict(engine="world-A", cat="exploration", ref="DESIGN.md §5 C06",
+   text="same world with adversarial key values (empty, separators, colliding concatenations); tag, chunk membership and queue directory of every record judged against its own key tuple with an independent template expander, reattachment of queues after restarts judged from retransmissions.",
+   note="trusted base as C01; key values reach the agent through syslog header tokens (no spaces)"),
+ "C07": dict(engine="world-A", cat="exploration", ref="DESIGN.md §5 C07",
+   text="same world fed with grammar-mutated hostile byte streams between well-formed sentinel records over fragmenting connections: no goroutine of the running agent may panic, sentinels must arrive unaltered, a clean connection afterwards must be served. The stream-level surface is what simulation adds; the per-record byte space of the pure functions is only sampled.",
+   note="trusted base as C01; limits scaled down consistently, a slice runs at the shipped 1 MiB sizes"),
+ "C11": dict(engine="world-A", cat="exploration", ref="DESIGN.md §5 C11",
+   text="same world with chunk limits scaled down and sizes around them in all three Forward modes; every chunk that reaches the upstream or the disk (after spill, retry, recovery) is checked for well-formedness, self-description, id uniqueness, completeness and order. What simulation adds is the write/flush interleaving, ids cut at one clock instant and across restarts, and checking what actually arrives.",
+   note="trusted base as C01; the Datadog format is not part of this world"),
+ "C12": dict(engine="world-A", cat="exploration", ref="DESIGN.md §5 C12",
+   text="same world with every record pooled and the pool driven adversarially by the decision stream, several connections interleaved into shared pipelines; every delivered event must equal the event of its own record on a fresh single-record pipeline.",
+   note="trusted base as C01; percentage sampling excluded (documented as stateful); single-output configuration"),
+ "C18": dict(engine="world-A", cat="exploration", ref="DESIGN.md §5 C18",
+   text="stop requests at seeded moments against every upstream state and load; simulated time from the stop request to the return of shutdownInputs()+Shutdown() compared with the bound computed from the timeouts configured for that run; nothing may be only in memory afterwards; plus the client-level stop bound in world B.",
+   note="trusted base as C01; the fake clock makes minute-long timeouts free, so the bound is checked at shipped-order timeout values"),
+ "C19": dict(engine="world-A", cat="exploration", ref="DESIGN.md §5 C19",
+   text="balance equations between the agent's own counters and harness-observed events after every graceful stop of faulty runs.",
+   note="trusted base as C01; only relations determined by observable events are asserted (equalities where possible, inequalities where in-flight loss makes a quantity unobservable); profiles without reachable limits"),
 }
 na_pure = {
  "C09":"pure single-threaded function of one input line (syslogParser.Parse): no schedule, clock, fault or interleaving for a simulator to own (DESIGN.md §6)",
